@@ -171,14 +171,15 @@ Definition eval_rowfn (f : rowfn) (r : record) : res cell :=
   end.
 (* column functions for d.do: first argument is the cell, further arguments are named columns
      FIsNone = lambda v: 1 if v is None else 0;  FNone = lambda v: None;  FIdent = lambda v: v
-     FCoalesce b = lambda v, b: b if v is None else v *)
-Inductive colfn := FIsNone | FNone | FIdent | FCoalesce (b : colname).
+     FCoalesce b = lambda v, b: b if v is None else v;  FEq b = lambda v, b: 1 if v == b else 0 *)
+Inductive colfn := FIsNone | FNone | FIdent | FCoalesce (b : colname) | FEq (b : colname).
 Definition eval_colfn (f : colfn) (x : cell) (r : record) : res cell :=
   match f with
   | FIsNone => Ok (cbool (is_none x))
   | FNone => Ok CNone
   | FIdent => Ok x
   | FCoalesce b => match aget b r with Some y => Ok (if is_none x then y else x) | None => Err EType end
+  | FEq b => match aget b r with Some y => Ok (cbool (py_eq x y)) | None => Err EType end
   end.
 (* relabel: 'x_' prefix, '_x' suffix, keyword map old -> new *)
 Inductive relspec := RelPrefix (s : string) | RelSuffix (s : string) | RelMap (m : list (colname * colname)).
@@ -260,18 +261,23 @@ Definition c_proj (c : ctable) (names : list colname) : res ctable :=
   | [] => Ok (empty_cols c)
   | _ => mapM (fun k => c_getcol c k >>= fun col => Ok (k, col)) names >>= fun kvs => finish (dict_of kvs)
   end.
+(* Dict.__call__ passes key = <name of the new column> as a default: the row's own cells win (a column called "key" is read as such),
+   a function with a parameter "key" and no such column sees the new column's name *)
+Definition with_key (key : colname) (r : record) : record := r ++ [("key"%string, CStr key)].
 Definition c_call (c : ctable) (key : colname) (arg : cval + rowfn) : res ctable :=
   match arg with
   | inl v => c_set c key v
-  | inr f => c_apply c f >>= fun l => c_set c key (VL l)
+  | inr f => mapM (fun r => eval_rowfn f (with_key key r)) (c_iter c) >>= fun l => c_set c key (VL l)
   end.
 Definition c_relabel (c : ctable) (sp : relspec) : res ctable :=
   finish (dict_of (map (fun kv => (ren sp (fst kv), snd kv)) c)).
 Definition c_do1 (f : colfn) (c : ctable) (key : colname) : res ctable :=
   mapM (fun r => match aget key r with None => Err EKey | Some x => eval_colfn f x r end) (c_iter c) >>= fun col =>
   c_set c key (VL col).
-Definition c_do (c : ctable) (f : colfn) (ks : option (list colname)) : res ctable :=
-  fold_left (fun acc key => acc >>= fun t => c_do1 f t key) (match ks with None => keys c | Some l => l end) (Ok c).
+(* for key in keys: for f in functions: res[key] = [f(row[key], ...) for row in res]  - every step sees the rows as they are then *)
+Definition do_steps (ks : list colname) (fs : list colfn) : list (colname * colfn) := flat_map (fun k => map (pair k) fs) ks.
+Definition c_do (c : ctable) (fs : list colfn) (ks : option (list colname)) : res ctable :=
+  fold_left (fun acc kf => acc >>= fun t => c_do1 (snd kf) t (fst kf)) (do_steps (match ks with None => keys c | Some l => l end) fs) (Ok c).
 (* dictable.concat of >= 2 tables: dict_concat over the tables (d.get(key) = [None]*len(d) when absent), sum(value, []) *)
 Definition col_or_none (k : colname) (c : ctable) : list cell :=
   match aget k c with Some col => col | None => repeat CNone (tlen c) end.
@@ -356,7 +362,7 @@ Definition r_proj (r : rtable) (names : list colname) : res rtable :=
 Definition r_call (r : rtable) (key : colname) (arg : cval + rowfn) : res rtable :=
   match arg with
   | inl v => r_set r key v
-  | inr f => r_apply r f >>= fun l => r_set r key (VL l)
+  | inr f => mapM (fun rc => eval_rowfn f (with_key key rc)) (recs r) >>= fun l => r_set r key (VL l)
   end.
 Definition r_relabel (r : rtable) (sp : relspec) : res rtable :=
   Ok (mkR (keys (dict_of (map (fun k => (ren sp k, tt)) (cols r))))
@@ -364,8 +370,8 @@ Definition r_relabel (r : rtable) (sp : relspec) : res rtable :=
 Definition r_do1 (f : colfn) (r : rtable) (key : colname) : res rtable :=
   mapM (fun rc => match aget key rc with None => Err EKey | Some x => eval_colfn f x rc end) (recs r) >>= fun col =>
   r_set r key (VL col).
-Definition r_do (r : rtable) (f : colfn) (ks : option (list colname)) : res rtable :=
-  fold_left (fun acc key => acc >>= fun t => r_do1 f t key) (match ks with None => cols r | Some l => l end) (Ok r).
+Definition r_do (r : rtable) (fs : list colfn) (ks : option (list colname)) : res rtable :=
+  fold_left (fun acc kf => acc >>= fun t => r_do1 (snd kf) t (fst kf)) (do_steps (match ks with None => cols r | Some l => l end) fs) (Ok r).
 Definition r_union (ts : list rtable) : list colname := nodup string_dec (flat_map cols ts).
 (* concatenation appends the rows in order; absent columns are filled with None *)
 Definition r_concat (ts : list rtable) : res rtable :=
@@ -395,7 +401,7 @@ Inductive op :=
 | OProj (dst r : nat) (names : list colname)
 | OCall (dst r : nat) (key : colname) (arg : cval + rowfn)
 | ORelabel (dst r : nat) (sp : relspec)
-| ODo (dst r : nat) (f : colfn) (ks : option (list colname))
+| ODo (dst r : nat) (fs : list colfn) (ks : option (list colname))   (* d.do([f1, f2, ..], *keys) *)
 | OConcat (dst : nat) (srcs : list nat)                  (* one source: returns the operand itself *)
 | OAdd (dst r : nat) (a : addarg)                        (* d + None, d + 0: return d itself *)
 | OCopy (dst r : nat)
@@ -424,7 +430,7 @@ Record TOps (T : Type) := mkOps {
   t_proj : T -> list colname -> res T;
   t_call : T -> colname -> cval + rowfn -> res T;
   t_relabel : T -> relspec -> res T;
-  t_do : T -> colfn -> option (list colname) -> res T;
+  t_do : T -> list colfn -> option (list colname) -> res T;
   t_concat : list T -> res T;
   t_of_record : record -> res T
 }.
